@@ -133,6 +133,8 @@ func init() {
 		runs = append(runs, runsOf(lifeRuns(tier), o, MonFlags{Dis: true}, "life-main", "life-caplow-flipped", "life-restart", "fx-main")...)
 		runs = append(runs, RunSpec{Name: "bind-ops+slash-restart", Sc: restartable(scBind(defaultParams(), bindOpsFull(), []Template{tSlash}, []string{"bad"}, d, b, m-1)), Oracles: o, Mon: MonFlags{Dis: true}})
 		runs = append(runs, RunSpec{Name: "bind-ops-main-unit+foreign-token", Sc: scBindFX(defaultParams(), d, b, m), Oracles: o, Mon: MonFlags{Dis: true}})
+		// block times that advance by three seconds at once: the refundable instant (disabling time + 2 s) can be jumped over
+		runs = append(runs, RunSpec{Name: "bind-ops-time-jumps", Sc: timeJumps(scBind(defaultParams(), bindOpsSmall(), []Template{tSlash}, []string{"bad"}, d, b, m-1)), Oracles: o, Mon: MonFlags{Dis: true}})
 		// arbitration 1.5 s + complaint 0.5 s: the refundable instant is exactly two blocks after the disabling time
 		frac := defaultParams()
 		frac.Arbitration, frac.Complaint, frac.Name = 1500*time.Millisecond, 500*time.Millisecond, "arbitration1.5s-complaint0.5s"
@@ -176,6 +178,7 @@ func init() {
 			{Name: "slash-after-refund", Sc: scBind(defaultParams(), []Action{actBind("a", "P1", "O1", 10, "p1", 1), actDisable("a", "P1", "O1"), actRefund("a", "P1", "O1")}, []Template{tSlash3}, []string{"bad"}, d+1, b+1, 2), Oracles: o},
 		}
 		runs = append(runs, runsOf(lifeRuns(tier), o, MonFlags{})...)
+		runs = append(runs, RunSpec{Name: "bind-ops-time-jumps", Sc: timeJumps(scBind(defaultParams(), bindOpsSmall(), []Template{tSlash2}, []string{"bad"}, d, b, m-1)), Oracles: o})
 		if tier == "thorough" {
 			for _, sl := range []string{"0", "0.001", "1"} {
 				runs = append(runs, RunSpec{Name: "bind-ops+slash" + sl, Sc: scBind(paramSet("0.5", sl), bindOpsFull(), []Template{tSlash}, []string{"bad"}, d, b, m), Oracles: o})
@@ -225,6 +228,8 @@ func init() {
 		runs = append(runs, RunSpec{Name: "huge-values", Sc: scHuge(paramSet("0.1", "0.001"), d-2, b-1, 2), Oracles: o, Mon: MonFlags{Vol: true}})
 		runs = append(runs, priceFractionsRun(o, MonFlags{Vol: true}, d-1, b, m))
 		runs = append(runs, priceUpdateRejectedRun(o, MonFlags{Vol: true}, d-1, b, m))
+		// block times that advance by three seconds at once: a whole promotion window can lie between two blocks
+		runs = append(runs, RunSpec{Name: "price-time-jumps", Sc: timeJumps(withFunds(scPrice(paramSet("0.1", "0.001"), "p4t", "p1t", []Template{tRep2, tInf}, AlphaOpts{RespKinds: []string{"ok"}}, d-1, b, m), 30, 5)), Oracles: o, Mon: MonFlags{Vol: true}})
 		runs = append(runs, runsOf(lifeRuns(tier), o, MonFlags{Vol: true})...)
 		return runs
 	}, Pure: priceGrid})
@@ -537,6 +542,13 @@ func init() {
 func flip(sc *Scenario) *Scenario { sc.FlipIDs = true; return sc }
 
 // restartable: the chain may be restarted once from a zero-height export along the way (restart.go).
+// timeJumps: block times may also advance by three seconds at once.
+func timeJumps(sc *Scenario) *Scenario {
+	sc.TimeJump = 3
+	sc.Name += "+time jumps"
+	return sc
+}
+
 func restartable(sc *Scenario) *Scenario {
 	sc.Restart = true
 	sc.Name += "+restart"
